@@ -480,6 +480,14 @@ func (x *lruCtx) checkEviction(t *Trace, name string, fn *ssa.Function) bool {
 			c.violated("C04.eviction", name, e.Pos, "an evicted element is not list.Back(): the victim is not the least recently used entry", c.witness(t, i)...)
 			return false
 		}
+		// the entry this operation touches must already be at the front when victims are chosen
+		for j := i + 1; j < len(t.Events); j++ {
+			y := t.Events[j]
+			if x.listCall(y, "MoveToFront") || x.listCall(y, "PushFront") {
+				c.violated("C04.eviction", name, e.Pos, "entries are evicted before the entry this operation touches has been moved to the front: a just-updated key near the tail is evicted itself (its new value is lost) or in place of older entries", c.witness(t, j)...)
+				return false
+			}
+		}
 		facts := t.factsBefore(i)
 		over := false
 		for j := i - 1; j >= 0; j-- {
